@@ -5,7 +5,7 @@ from .snippets import resolve_snippets as snippets
 from .implicit_tag import implicit_tag
 from .lorem import lorem
 from .addon.xsl import xsl
-from .addon.bem import bem
+from .addon.bem import bem, block_lookup
 from .addon.label import label
 from .format import html, haml, slim, pug
 from .utils import walk
@@ -46,6 +46,8 @@ def parse(abbr: str, config: Config):
         snippets(abbr, config)
         walk(abbr, transform, config)
     finally:
+        # Do not keep transformed nodes alive after the call
+        block_lookup.clear()
         # Always give the caller's config back as it was, also on errors
         if text:
             config.user_config['text'] = text
